@@ -799,6 +799,9 @@ def build_world(sc, schedule=(), policy=None, granularity="locks", cls=None):
     for c in sorted(set(cuts)) + [len(data)]:
         if c > prev:
             script.append(("send", data[prev:c]))
+            if prev == 0 and sc.get("wait_wire") and c < len(data):
+                # a client that sends the rest only after it has seen part of the first response
+                script.append(("wait_wire", sc["wait_wire"]))
             prev = c
     if sc.get("close"):
         script.append(("close",))
@@ -883,8 +886,11 @@ def gen_race_scenario(rng):
         msgs.append(rng.choice(["get", "get", "post", "close", "bad"]))
     if rng.random() < 0.2:
         msgs.append("part")
-    return {"msgs": msgs, "cuts": ["boundaries"], "close": rng.random() < 0.2,
-            "lookahead": rng.choice([1, 1, 2, 5]), "workers": rng.choice([1, 1, 2])}
+    sc = {"msgs": msgs, "cuts": ["boundaries"], "close": rng.random() < 0.2,
+          "lookahead": rng.choice([1, 1, 2, 5]), "workers": rng.choice([1, 1, 2])}
+    if rng.random() < 0.5:
+        sc["wait_wire"] = rng.choice([1, 1, 60, 100])
+    return sc
 
 
 def make_policy(rng, kind, est=200):
